@@ -126,7 +126,7 @@ def gen_cont(tier, seed):
         for mix in MIXES:
             if kind == "unbinned" and mix != "none":
                 continue
-            for labels in (False, True):
+            for labels in (False, True, "axes-only", "label-only"):          # (each of the three labels on its own, too)
                 if labels and mix not in ("none", "simple"):
                     continue
                 yield {"kind": kind, "mix": mix, "labels": labels}
@@ -145,8 +145,9 @@ def make_container(kind, mix, labels):
         c = HistContainer(6, (-3, 3)); c.set_bins([3.0, 5.0, 9.0, 8.0, 4.0, 2.0], underflow=7.0, overflow=1.0); add_sources(c, mix, n=6)
     else:
         c = UnbinnedContainer(RAW)
-    if labels:
+    if labels and labels != "axes-only":
         c.label = "my data"
+    if labels and labels != "label-only":
         c.axis_labels = ("the x", "the y")
     return c
 
